@@ -30,6 +30,7 @@ func init() {
 			c17SizeBoundaries(r)
 			c17ValidateBeforeReplicate(r)
 			kvSizeBoundaryAgreement(r)
+			kvEntrySizeFormula(r)
 			putDoesNotRetain(r)
 			memoryEscape(r)
 			c15ErrorsKeepTheirPrefix(r)
